@@ -219,9 +219,38 @@ impl GenerationalAtomicStorage {
 #[derive(Debug)]
 pub struct Recency<K> {
     mask: MetricKindMask,
-    #[allow(clippy::type_complexity)]
-    inner: Mutex<(Clock, HashMap<K, (Generation, Instant)>)>,
+    inner: Mutex<(Clock, RecencyEntries<K>)>,
     idle_timeout: Option<Duration>,
+}
+
+/// Last observed generation, and time of that observation, of every tracked metric.
+///
+/// Counters, gauges and histograms live in separate maps in [`Registry`], so the same key can be
+/// registered under more than one kind.  Entries are therefore tracked per kind as well, so that
+/// metrics which merely share a key never share recency state.
+#[derive(Debug)]
+struct RecencyEntries<K> {
+    counters: HashMap<K, (Generation, Instant)>,
+    gauges: HashMap<K, (Generation, Instant)>,
+    histograms: HashMap<K, (Generation, Instant)>,
+}
+
+impl<K> RecencyEntries<K> {
+    fn new() -> Self {
+        RecencyEntries {
+            counters: HashMap::new(),
+            gauges: HashMap::new(),
+            histograms: HashMap::new(),
+        }
+    }
+
+    fn for_kind(&mut self, kind: MetricKind) -> &mut HashMap<K, (Generation, Instant)> {
+        match kind {
+            MetricKind::Counter => &mut self.counters,
+            MetricKind::Gauge => &mut self.gauges,
+            MetricKind::Histogram => &mut self.histograms,
+        }
+    }
 }
 
 impl<K> Recency<K>
@@ -241,7 +270,7 @@ where
     /// Refer to the documentation for [`MetricKindMask`](crate::MetricKindMask) for more
     /// information on defining a metric kind mask.
     pub fn new(clock: Clock, mask: MetricKindMask, idle_timeout: Option<Duration>) -> Self {
-        Recency { mask, inner: Mutex::new((clock, HashMap::new())), idle_timeout }
+        Recency { mask, inner: Mutex::new((clock, RecencyEntries::new())), idle_timeout }
     }
 
     /// Checks if the given counter should be stored, based on its known recency.
@@ -315,6 +344,7 @@ where
             if self.mask.matches(kind) {
                 let mut guard = self.inner.lock().unwrap_or_else(PoisonError::into_inner);
                 let (clock, entries) = guard.deref_mut();
+                let entries = entries.for_kind(kind);
 
                 let now = clock.now();
                 let deleted = if let Some((last_gen, last_update)) = entries.get_mut(key) {
